@@ -78,4 +78,9 @@ def templates(tier="quick"):
     v = Variant("v0", [Stmt("a", ex=["s"]), Stmt("b", ex=["t"], rsp=("blocker/b.rsp", "x")),
                        Stmt("c", ex=["t"]), Stmt("top", ex=["a", "b", "c"])])
     add("start_fails", v, [], tags=["rspfile"], files={"blocker": "a file, not a directory\n"}, interrupts=False)
+    # the build is given up because *finishing* a command fails (the dyndep file it made does not parse) while others
+    # run and, with simultaneous completions, while another has ended and has not been asked for yet: every token comes back
+    v = Variant("v0", [Stmt("dd", ex=["dd.in"], copy=True), Stmt("x", ex=["s"]), Stmt("y", ex=["t"]),
+                       Stmt("out", ex=["in"], oo=["dd"], dyndep="dd"), Stmt("top", ex=["out", "x", "y"])])
+    add("finish_fails", v, [], tags=["dyndep"], files={"dd.in": "ninja_dyndep_version = 1\nbuild out: dyndep |\n  garbage\n"}, interrupts=False)
     return T
